@@ -294,13 +294,23 @@ func TestVerifC11(t *testing.T) {
 		{"wrong-basic", map[string]string{"Authorization": basic(sysUser, "wrong")}, false},
 		{"basic-empty-password", map[string]string{"Authorization": basic(sysUser, "")}, false},
 		{"basic-unknown-user", map[string]string{"Authorization": basic("root", sysPass)}, false},
+		{"basic-unknown-user-empty-password", map[string]string{"Authorization": basic("nobody", "")}, false},
+		{"basic-empty-user-empty-password", map[string]string{"Authorization": basic("", "")}, false},
 		{"bad-cookie-and-right-basic", map[string]string{"Cookie": "agh_session=" + strings.Repeat("cd", 16), "Authorization": basic(sysUser, sysPass)}, false},
 		{"valid-cookie", map[string]string{"Cookie": "agh_session=" + valid}, true},
 		{"valid-basic", map[string]string{"Authorization": basic(sysUser, sysPass)}, true},
 	}
 	if !verifkit.Thorough() {
 		// Quick: a core of credential shapes.
-		creds = []cred{creds[0], creds[1], creds[4], creds[5], creds[7], creds[10], creds[11], creds[12]}
+		keep := map[string]bool{"none": true, "unknown-cookie": true, "expired-cookie": true, "logged-out-cookie": true, "wrong-basic": true,
+			"basic-unknown-user-empty-password": true, "bad-cookie-and-right-basic": true, "valid-cookie": true, "valid-basic": true}
+		var core []cred
+		for _, c := range creds {
+			if keep[c.name] {
+				core = append(core, c)
+			}
+		}
+		creds = core
 	}
 	allMethods := []string{"GET", "POST", "PUT", "DELETE", "HEAD", "OPTIONS", "PATCH"}
 	type shape struct{ ctype, body string }
@@ -309,6 +319,16 @@ func TestVerifC11(t *testing.T) {
 		shapes = shapes[:3]
 	}
 
+	// The login call itself: wrong credential shapes must not yield a session.
+	for _, lc := range [][2]string{{"nobody", ""}, {"", ""}, {sysUser, ""}, {sysUser, "wrong"}, {"nobody", sysPass}} {
+		r := c11Raw(in.WebPort, "POST", "/control/login", map[string]string{"Content-Type": "application/json"},
+			fmt.Sprintf(`{"name":%q,"password":%q}`, lc[0], lc[1]))
+		rep.Eval(true, "login|"+lc[0]+"|"+lc[1])
+		rep.Class("login_attempts_with_wrong_credentials")
+		if r.Status == 200 {
+			rep.Violate("login-accepted-wrong-credentials", fmt.Sprintf("POST /control/login accepted name=%q password=%q", lc[0], lc[1]), map[string]any{"status": r.Status})
+		}
+	}
 	before, beforeParts := c11Digest(in)
 	unauth := 0
 	check := func(route, declared, method, target string, sh shape, c cred, spelling string) {
@@ -530,6 +550,76 @@ func TestVerifC11(t *testing.T) {
 		rep.Violate("server-exit", "server exited during the sweep", map[string]any{"log_tail": sysTail(in.Log(), 4000)})
 	}
 	c11InstallPhase(rep, routes, methods)
+	c11BrokenSessionsDB(rep, up, routes, methods)
+}
+
+// c11BrokenSessionsDB starts the server with a configured administrator and a
+// session database that cannot be opened.  Refusing to start is fine; coming
+// up with the admin API open is not.
+func c11BrokenSessionsDB(rep *verifkit.Report, up *sysUpstream, routes []string, methods map[string]string) {
+	dir, err := os.MkdirTemp(os.Getenv("VERIF_SCRATCH"), "agh-brokendb-")
+	if err != nil {
+		return
+	}
+	defer os.RemoveAll(dir)
+	_ = os.MkdirAll(filepath.Join(dir, "data"), 0o755)
+	_ = os.WriteFile(filepath.Join(dir, "data", "sessions.db"), []byte(strings.Repeat("this is not a bolt database\n", 200)), 0o644)
+	in := &sysInst{Dir: dir, WebPort: verifkit.FreePort(), done: make(chan struct{})}
+	in.DNSPort = verifkit.FreePort()
+	opts := sysConfOpts{UpstreamPort: up.Port}
+	if err = sysWriteConfig(dir, in.WebPort, in.DNSPort, opts); err != nil {
+		return
+	}
+	bin := os.Getenv("VERIF_AGH_BIN")
+	in.LogPath = filepath.Join(dir, "agh.log")
+	lf, _ := os.Create(in.LogPath)
+	in.cmd = exec.Command(bin, "-w", dir, "--no-check-update", "--no-permcheck")
+	in.cmd.Stdout, in.cmd.Stderr = lf, lf
+	in.cmd.SysProcAttr = &syscall.SysProcAttr{Setpgid: true}
+	if err = in.cmd.Start(); err != nil {
+		return
+	}
+	go func() { in.waitErr = in.cmd.Wait(); _ = lf.Close(); close(in.done) }()
+	defer in.Kill()
+	in.client = &http.Client{Timeout: 10 * time.Second}
+	rep.Eval(true, "broken-sessions-db")
+	// Give it time to either exit or come up.
+	came := false
+	for i := 0; i < 100 && !in.Exited(); i++ {
+		if r := c11Raw(in.WebPort, "GET", "/control/status", map[string]string{}, ""); r.Status != 0 {
+			came = true
+
+			break
+		}
+		time.Sleep(100 * time.Millisecond)
+	}
+	if !came {
+		rep.Event("broken_sessions_db_server_refused_to_start")
+
+		return
+	}
+	rep.Event("broken_sessions_db_server_came_up")
+	for _, route := range routes {
+		if c11IsPublic(route) || route == "/" {
+			continue
+		}
+		m := methods[route]
+		if m == "" {
+			m = "GET"
+		}
+		hdrs := map[string]string{}
+		body := ""
+		if m != "GET" {
+			hdrs["Content-Type"] = "application/json"
+			body = "{}"
+		}
+		r := c11Raw(in.WebPort, m, route, hdrs, body)
+		rep.Eval(true, "broken-sessions-db|"+route)
+		if r.Status != 403 && r.Status != 0 {
+			rep.Violate("unauthenticated-not-refused:session-db-unopenable", fmt.Sprintf("with an unopenable session database the server came up and %s %s without credentials answered %d", m, route, r.Status),
+				map[string]any{"route": route, "status": r.Status, "body_head": sysTail(r.Body, 200)})
+		}
+	}
 }
 
 // c11InstallPhase starts a fresh, unconfigured instance, creates the
